@@ -2802,28 +2802,32 @@ class Env(cabc.MutableMapping):
         """
         old = {}
         local = self._d._local
-        # single positional argument should be a dict-like object
-        if other is not None:
-            for k, v in other.items():
-                old[k] = self._capture_for_swap(k, local)
-                self._set_item(k, v, thread_local=True)
-        # kwargs could also have been sent in
-        for k, v in kwargs.items():
-            if k not in old:
-                # also given positionally: what was captured there is the
-                # value to restore, not the one the positional dict just set
-                old[k] = self._capture_for_swap(k, local)
-            self._set_item(k, v, thread_local=True)
-
-        if overlay is not None:
-            self._overlay_stack.append(overlay)
+        pushed = False
         exception = None
         try:
+            # entering is part of the scope: a value that fails to convert
+            # must not leave the ones set before it in place
+            # single positional argument should be a dict-like object
+            if other is not None:
+                for k, v in other.items():
+                    old[k] = self._capture_for_swap(k, local)
+                    self._set_item(k, v, thread_local=True)
+            # kwargs could also have been sent in
+            for k, v in kwargs.items():
+                if k not in old:
+                    # also given positionally: what was captured there is the
+                    # value to restore, not the one the positional dict just set
+                    old[k] = self._capture_for_swap(k, local)
+                self._set_item(k, v, thread_local=True)
+
+            if overlay is not None:
+                self._overlay_stack.append(overlay)
+                pushed = True
             yield self
         except Exception as e:
             exception = e
         finally:
-            if overlay is not None:
+            if pushed:
                 self._overlay_stack.pop()
             # restore the values
             for k, v in old.items():
